@@ -161,11 +161,12 @@ Definition sub_rec_of (k : sub_key) (v : subscription * N) : sub_rec :=
   mkSubRec (sub_enc k) (fst k) (snd k) (su_identifier s) (su_rh s) (snd v) (su_rap s) (su_nolocal s).
 Definition ret_rec_of (k : bytes) (v : bytes * pkt) : msg_rec :=
   let p := snd v in
-  mkMsgRec k (fst v) (p_origin p) 0 (p_fh p) k (p_payload p) 0 (p_created p) (p_pf p) (p_pf_flag p) (p_mei p) (p_props p).
+  mkMsgRec k (fst v) (p_origin p) 0 (p_fh p) k (p_payload p) 0 (p_created p) (p_pf p) (p_pf_flag p) (p_mei p)
+           (strip_alias (p_props p)).
 Definition ifm_rec_of (k : ifm_key) (v : pkt * N) : msg_rec :=
   let p := fst v in
   mkMsgRec (ifm_enc k) (fst k) (p_origin p) (snd k) (p_fh p) (p_topic p) (p_payload p) (snd v) (p_created p)
-           (p_pf p) (p_pf_flag p) (p_mei p) (p_props p).
+           (p_pf p) (p_pf_flag p) (p_mei p) (strip_alias (p_props p)).
 
 Definition sub_key_of (r : sub_rec) : sub_key := (sr_client r, sr_filter r).
 Definition ifm_key_of (r : msg_rec) : ifm_key := (mr_client r, mr_pid r).
@@ -395,11 +396,18 @@ Proof.
   - change (0 =? 5) with false. cbn [andb]. rewrite andb_false_r. reflexivity.
 Qed.
 
+Lemma strip_alias_idem v : strip_alias (strip_alias v) = strip_alias v.
+Proof.
+  destruct v as [n | b | l]; try reflexivity.
+  do 6 (destruct l as [|? l]; try reflexivity).
+  destruct v4 as [n | b | l']; try reflexivity. destruct l; reflexivity.
+Qed.
+
 Lemma obs_restored maxcap p pid' topic' key cid sent :
   irregular maxcap p = false ->
   obs_of_pkt maxcap
     (to_packet maxcap (mkMsgRec key cid (p_origin p) pid' (p_fh p) topic' (p_payload p) sent (p_created p)
-                                (p_pf p) (p_pf_flag p) (p_mei p) (p_props p))) =
+                                (p_pf p) (p_pf_flag p) (p_mei p) (strip_alias (p_props p)))) =
   obs_of_pkt maxcap (mkPkt (p_fh p) pid' topic' (p_payload p) (p_origin p) (p_created p) (p_expiry p) (p_ver p)
                            (p_pf p) (p_pf_flag p) (p_mei p) (p_props p)).
 Proof.
@@ -413,7 +421,7 @@ Proof.
                deadline maxcap (mkPkt fh pid topic payload origin created expiry ver pf pff mei props)) by reflexivity.
   assert (W' : wire_expiry (mkPkt fh pid' topic' payload origin created expiry ver pf pff mei props) =
                wire_expiry (mkPkt fh pid topic payload origin created expiry ver pf pff mei props)) by reflexivity.
-  rewrite D', W', <- D, <- W. reflexivity.
+  rewrite D', W', <- D, <- W, strip_alias_idem. reflexivity.
 Qed.
 
 (* ---------- the theorem on the redis layout ---------- *)
